@@ -257,6 +257,33 @@ func Motif(rng *fw.Rng, W int64) Poly {
 	if len(seq) > 60 {
 		seq = seq[:60]
 	}
+	if rng.Chance(1, 12) {
+		// a long walk over distinct neighbouring cells, walked exactly back (and sometimes forth again)
+		L := 20 + rng.Intn(110)
+		x, y := int64(0), int64(0)
+		dx, dy := int64(1), int64(0)
+		var walk []P
+		for i := 0; i < L; i++ {
+			walk = append(walk, centre(x, y))
+			if rng.Chance(1, 6) {
+				dx, dy = -dy, dx
+			}
+			x, y = x+dx, y+dy
+			if x < 0 || y < 0 { // stay in the positive quadrant
+				x, y = x-2*dx, y-2*dy
+				dx, dy = -dx, -dy
+			}
+		}
+		seq = append([]P{}, walk...)
+		for rep := 0; rep <= rng.Intn(3); rep++ {
+			for i := len(walk) - 2; i >= 0; i-- {
+				seq = append(seq, walk[i])
+			}
+			if rng.Bool() {
+				seq = append(seq, walk[1:]...)
+			}
+		}
+	}
 	// sometimes a honest triangle/square in front or behind
 	if rng.Bool() {
 		a := centre(rng.Int63n(cells), rng.Int63n(cells))
@@ -381,7 +408,40 @@ func Degenerate(rng *fw.Rng, W int64) Poly {
 // Variants: a star with 40-150 vertices, a comb with 8-30 teeth, a grown simple polygon with 40-120 vertices,
 // a spiral corridor (hairpin bends: rings that grow to several times their vertex count when snapped at coarse levels).
 func Big(rng *fw.Rng, W int64) Poly {
-	switch rng.Intn(4) {
+	switch rng.Intn(5) {
+	case 4:
+		// long thin sliver: a gently turning path with a vertex in (almost) every pixel it passes, out along one side
+		// and back along the other, 1-2 q apart: snaps to a long chain that walks exactly back over itself
+		n := 10 + rng.Intn(140)
+		step := float64(3 + rng.Intn(6)) // q per vertex (a pixel is 4 q)
+		ang := rng.Float64() * 2 * math.Pi
+		turn := (rng.Float64() - 0.5) * 0.08
+		off := float64(1 + rng.Intn(2))
+		x, y := 0.0, 0.0
+		var out, back []P
+		for i := 0; i < n; i++ {
+			out = append(out, P{int64(math.Round(x)), int64(math.Round(y))})
+			nx, ny := -math.Sin(ang), math.Cos(ang)
+			back = append(back, P{int64(math.Round(x + off*nx)), int64(math.Round(y + off*ny))})
+			x, y = x+step*math.Cos(ang), y+step*math.Sin(ang)
+			ang += turn
+			if rng.Chance(1, 30) {
+				turn = (rng.Float64() - 0.5) * 0.08
+			}
+		}
+		r := out
+		for i := len(back) - 1; i >= 0; i-- {
+			r = append(r, back[i])
+		}
+		// shift into the positive quadrant
+		minx, miny := int64(0), int64(0)
+		for _, p := range r {
+			minx, miny = min(minx, p[0]), min(miny, p[1])
+		}
+		for i := range r {
+			r[i] = P{r[i][0] - minx + 4, r[i][1] - miny + 4}
+		}
+		return Poly{r}
 	case 0:
 		w := float64(120 + rng.Intn(280))
 		p := Poly{star(rng, w/2, w/2, w*0.1*rng.Float64(), w*0.45, 40+rng.Intn(110))}
